@@ -544,10 +544,6 @@ Definition post_mismatches (cs : list pcase) : list Z := map pc_id (filter pcase
 (* what any step-fixed matrix must look like, judged on the OBSERVED output of FixPeriodPlanner: points lie on the
    grid from + i*step inside the array, ascend within a batch, carry no zero, one batch per run of a fingerprint,
    and every value is the value of an input entry of that series whose range window [b, b+d) covers or touches the slot *)
-Definition covers (from step d : Z) (out inp : zentry) : bool :=
-  let b := Z.quot (pe_ts inp) d * d in
-  N.eqb (pe_fp inp) (pe_fp out) && Z.eqb (pe_val inp) (pe_val out)
-  && Z.leb (Z.quot (b - from) step) (Z.quot (pe_ts out - from) step) && Z.leb (Z.quot (pe_ts out - from) step) (Z.quot (b + d - from) step).
 Fixpoint ascending (l : list zentry) : bool :=
   match l with a :: ((b :: _) as r) => Z.ltb (pe_ts a) (pe_ts b) && N.eqb (pe_fp a) (pe_fp b) && ascending r | _ => true end.
 Definition fix_out_ok (c : pcase) : bool :=
